@@ -225,6 +225,10 @@ func contract_Number_IsValid(n Number) (ok bool) {
 func contract_AppendVarint(b []byte, v uint64) (r []byte) {
 	modifiesTail(b)
 	ensures(freshSlice(r) || sameArray(r, b)) // extended in place, or reallocated
+	// append's guarantee: when the spare capacity suffices the bytes land in b's own array
+	ensures(imp(cap(b)-len(b) >= specVlen(v), sameArray(r, b)))
+	// ... and nothing beyond the appended bytes is touched (spare capacity after the varint is kept)
+	ensures(imp(sameArray(r, b), forallIn(r[:cap(r)], len(r), cap(r), func(k int, e byte) bool { return e == old(b[:cap(b)][k]) })))
 	ensures(len(r) == len(b)+specVlen(v))
 	ensures(forallIn(r, 0, len(b), func(i int, e byte) bool { return e == old(b[i]) }))
 	ensures(specVarintAt(r, len(b), v))
